@@ -21,7 +21,7 @@ def run(ctx):
     plan.append({"scens": wcat.special_dep_scenarios(), "policies": ("FIFO", "LIFO", "JOBS"), "bound": 1})
     plan.append({"scens": wcat.wait_scenarios(), "policies": ("FIFO", "JOBS"), "bound": 1})
     # an upstream job process dies abruptly (no marker) at every point, also when it had been taken back by a second scheduler
-    for pol in ("FIFO", "LIFO", "JOBS"):
+    for pol in ("FIFO", "LIFO", "JOBS", "Q:1,2,job"):
         plan.append({"scens": wcat.jobkill_scenarios(), "policies": (pol,), "kills": {"restart_bound": 0}})
     if not q:
         plan.append({"scens": wcat.dag_scenarios(3, rotations=(0, 4), all_orders=False, min_n=3), "policies": ("FIFO",), "bound": 2, "cap": 30000})
